@@ -55,6 +55,8 @@ def run(ctx):
                 ctx.nontrivial.add(('bcast', ev['op'], json.dumps([a['keys'] for a in ev['args']]), json.dumps([a['shape'] for a in ev['args']]), ev['id']))
             elif ev['kind'] in ('getitem', 'setitem'):
                 ctx.nontrivial.add((ev['kind'], ev['index'], json.dumps(ev['before']['shape']), ev['container'], ev.get('mode', '')))
+            elif ev['kind'] == 'itermv':
+                ctx.nontrivial.add(('itermv', json.dumps(ev['before']['keys']), json.dumps(ev['before']['shape']), ev['container']))
             else:
                 ctx.nontrivial.add(('resolve', ev['op'], ev['side'], ev['operand_kind'], json.dumps([a['keys'] for a in ev['args']])))
             if ev['kind'] == 'setitem' and len(ctx.samples) < 1:
@@ -71,6 +73,8 @@ def run(ctx):
                     + (f" (raised {ev['raised']})" if ev['raised'] else ''))
         elif ev['kind'] == 'bcast':
             what = f"{ev['op']} on array operands keys {[a['keys'] for a in ev['args']]} shapes {[a['shape'] for a in ev['args']]} in {describe_cfg(header['u'])}: {clause}" + (f" (raised {ev['raised']})" if ev['raised'] else '')
+        elif ev['kind'] == 'itermv':
+            what = f"itermv / shape of keys {ev['before']['keys']} with trailing shape {ev['before']['shape']} ({ev['container']} container): {clause}" + (f" (raised {ev['raised']})" if ev['raised'] else '')
         else:
             what = f"{ev['kind']} index {ev['index']} on shape {ev['before']['shape']} ({ev['container']} container): {clause}" + (f" (raised {ev['raised']})" if ev['raised'] else '')
         ctx.report(what, fp, {'trace_header': header, 'event': ev, 'spec': 'TraceOps.tla'})
